@@ -261,6 +261,7 @@ var (
 	TMapIS    = &Type{"map[int]string", reflect.TypeOf(map[int]string{})}
 	TFunc0    = &Type{"func()", reflect.TypeOf(func() {})}
 	TFuncS    = &Type{"func(string)", reflect.TypeOf(func(string) {})}
+	TFuncVar  = &Type{"func(...string)", reflect.TypeOf(func(...string) {})} // a variadic callback: it is handed the one argument of the occurrence
 	TFuncIE   = &Type{"func(int) error", reflect.TypeOf(func(int) error { return nil })}
 	TFunc0E   = &Type{"func() error", reflect.TypeOf(func() error { return nil })}
 	TUpper    = &Type{"Upper", reflect.TypeOf(Upper{})}
